@@ -33,16 +33,21 @@ def strict_seq(rng, kind, nvals, nops):
         if r < 0.3 or n == 0:
             L.append("push 1 %d" % v); q.append(v)
         elif r < 0.4:
-            hi = n + 1 if kind == "Array" else (n if kind == "Tuple" else n)
-            i = rng.randrange(0, max(hi, 1)) if kind != "List" else (0 if n == 0 else rng.randrange(0, n))
-            if kind == "Tuple" and n == 0: continue
-            L.append("pushat 1 %d %d" % (v, i)); q.insert(i, v)
+            # valid positions per kind (as in seqgen.pushat_pos), written with a negative index half of the time
+            if kind == "Array":
+                p = rng.randrange(0, n + 1); i = p if rng.random() < 0.5 else p - (n + 1)
+            elif n == 0:
+                if kind != "List": continue
+                p = i = 0
+            else:
+                p = rng.randrange(0, n); i = p if rng.random() < 0.5 else p - n
+            L.append("pushat 1 %d %d" % (v, i)); q.insert(p, v)
         elif r < 0.5:
             L.append("pop 1"); q.pop()
         elif r < 0.6:
             i = rng.randrange(0, n); L.append("popat 1 %d" % (i if rng.random() < 0.5 else i - n)); del q[i]
         elif r < 0.7:
-            i = rng.randrange(0, n); L.append("set 1 %d %d" % (i, v)); q[i] = v
+            i = rng.randrange(0, n); L.append("set 1 %d %d" % (i if rng.random() < 0.5 else i - n, v)); q[i] = v
         elif r < 0.75:
             L.append("get 1 %d" % rng.randrange(-n, n))
         elif r < 0.82:
